@@ -103,6 +103,7 @@ func OpenBucket(urlStr string, bucketName string, mode OpenMode) (b *Bucket, err
 
 	query := u.Query()
 	inMemory := query.Get("mode") == "memory"
+	existedBefore := false // an on-disk bucket that was there before this call: never deleted by it
 	if inMemory {
 		if mode == ReOpenExisting {
 			return nil, fs.ErrNotExist
@@ -128,6 +129,9 @@ func OpenBucket(urlStr string, bucketName string, mode OpenMode) (b *Bucket, err
 		}
 
 		query.Set("mode", ifelse(mode == ReOpenExisting, "rw", "rwc"))
+		if _, statErr := os.Stat(filepath.Join(dir, kDBFilename)); statErr == nil {
+			existedBefore = true
+		}
 		u = u.JoinPath(kDBFilename)
 	}
 
@@ -174,7 +178,13 @@ func OpenBucket(urlStr string, bucketName string, mode OpenMode) (b *Bucket, err
 	}
 	bucket.expManager = newExpirationManager(bucket.doExpiration)
 	defer func() {
-		if err != nil {
+		if err != nil && existedBefore {
+			// Failing to open an existing bucket (busy, I/O error...) must not destroy it: just let go.
+			bucket.expManager.stop()
+			bucket.mutex.Lock()
+			bucket._closeSqliteDB()
+			bucket.mutex.Unlock()
+		} else if err != nil {
 			_ = bucket.CloseAndDelete(ctx)
 		}
 	}()
